@@ -80,6 +80,7 @@ class ScriptEnv:
     self.suggest_calls = 0
     self.stop_calls = 0
     self.factory_calls = 0
+    self.label_seq = None     # when an int: suggestions are labelled from this counter instead of max_trial_id
 
   def reset(self):
     self.delta = 0            # deliver count+delta suggestions (count+delta clipped at 0)
@@ -127,6 +128,9 @@ class ScriptedPolicy(pythia.Policy):
       raise _EXC[e.fail_suggest]('scripted failure in suggest')
     k = 0 if e.deliver_zero else max(0, request.count + e.delta)
     base = request.max_trial_id
+    if e.label_seq is not None:
+      base = 50 + e.label_seq
+      e.label_seq += k
     sugg = [vz.TrialSuggestion({'x': param_for(base + i + 1)}) for i in range(k)]
     return pythia.SuggestDecision(sugg, self._delta())
 
@@ -498,6 +502,17 @@ def response_view(kind, r):
   if isinstance(r, vs.UpdateMetadataResponse):
     return ('UpdateMetadata', bool(r.error_details))
   return (type(r).__name__,)
+
+
+def call(backend, a):
+  """Thread-safe variant of apply(): no environment answers are touched. Returns (class, view)."""
+  k = a[0]
+  req = build_request(a)
+  try:
+    r = getattr(backend.servicer, k if not k.startswith('CreateStudy') else 'CreateStudy')(req)
+  except Exception as e:  # pylint: disable=broad-except
+    return err_class(e), ('error', type(e).__name__)
+  return 'OK', response_view(k, r)
 
 
 def apply(backend, a):
